@@ -229,8 +229,11 @@ class Ctx:
             return False
         return True
 
-    def run_leg(self, leg, args, timeout=1800, env=None):
+    def run_leg(self, leg, args, timeout=None, env=None):
         """run a harness leg; its last stdout line is a JSON summary."""
+        if timeout is None:
+            # generous: the machine may be loaded by other jobs; a timeout is reported as a broken tie
+            timeout = 1800 if self.tier == "quick" else 7200
         os.makedirs(self.cases_dir, exist_ok=True)
         os.makedirs(self.scratch, exist_ok=True)
         cmd = [BSV, leg] + [str(a) for a in args]
